@@ -73,14 +73,15 @@ def main(argv=None):
   if a.unit:
     units = [u for u in units if u.name in a.unit]
   units = [u for u in units if tier == "thorough" or u.tier == "quick"]
-  if not units:
+  from . import api as _api0
+  if not units and not _api0.STANDINS.get(prop):
     print("ERROR property=%s no units registered" % prop)
     return 3
   oto = 20000 if tier == "quick" else 120000
   ctx = mp.get_context("fork")
   results = {}
   pending = []
-  pool = ctx.Pool(processes=max(1, min(a.j, len(units))), maxtasksperchild=1)
+  pool = ctx.Pool(processes=max(1, min(a.j, max(1, len(units)))), maxtasksperchild=1)
   try:
     for u in units:
       pending.append((u, pool.apply_async(_worker, ((prop, u.name, oto),))))
@@ -174,6 +175,56 @@ def main(argv=None):
     if nobl == 0:
       errors.append("%s: zero obligations generated" % u.name)
 
+  # bounded stand-ins (labelled bounded; never counted in obligations/discharged)
+  from . import api as _api
+  from concurrent.futures import ThreadPoolExecutor
+  standins = [x for x in _api.STANDINS.get(prop, []) if not a.unit or x.name in a.unit]
+  standin_out = []
+  if standins:
+    with ThreadPoolExecutor(max_workers=max(1, min(a.j, len(standins)))) as tp:
+      futs = [(sd, tp.submit(driver.run_standin_subprocess, prop, sd.name, tier, seed,
+                             sd.timeout_s * (1 if tier == "quick" else 6))) for sd in standins]
+      for sd, fut in futs:
+        out = fut.result()
+        rec = {"function": sd.target, "name": sd.name, "bound": sd.bound, "status": out.get("status"),
+               "evaluations": out.get("evaluations", 0), "distinct_nontrivial": out.get("distinct", 0),
+               "samples": out.get("samples", []), "failures": len(out.get("failures", [])),
+               "wall_s": out.get("wall_s")}
+        standin_out.append(rec)
+        if out.get("status") == "timeout":
+          case = out.get("last_case")
+          hit = [e for e in known if e.get("status") == "finding" and e.get("unit") == sd.name
+                 and e.get("obligation", "").startswith("nontermination")]
+          if hit:
+            known_hits.append((hit[0], sd.name + "/nontermination"))
+          else:
+            path = os.path.join(VERIF, "replays", prop, sd.name + "__timeout.json")
+            with open(path, "w") as f:
+              json.dump({"property": prop, "standin": sd.name, "bound": sd.bound, "last_case": case,
+                         "observed": "native execution did not finish within the time limit"}, f, indent=1)
+            violations.append((sd.name, "bounded.nontermination", path, True, case))
+        elif out.get("status") == "crash":
+          errors.append("%s: stand-in harness crashed: %s" % (sd.name, out.get("stderr", "")[-300:]))
+        else:
+          if out.get("evaluations", 0) == 0:
+            errors.append("%s: stand-in evaluated zero cases" % sd.name)
+          unknown_fail = []
+          for fl in out.get("failures", []):
+            hit = [e for e in known if e.get("status") == "finding" and e.get("unit") == sd.name
+                   and fl["case"].startswith(e.get("obligation", "\0")[len("case:"):])
+                   and e.get("obligation", "").startswith("case:")]
+            if hit:
+              if not any(h is hit[0] for h, _ in known_hits):
+                known_hits.append((hit[0], sd.name + "/" + fl["case"][:80]))
+            else:
+              unknown_fail.append(fl)
+          if unknown_fail:
+            path = os.path.join(VERIF, "replays", prop, sd.name + "__bounded.json")
+            with open(path, "w") as f:
+              json.dump({"property": prop, "standin": sd.name, "bound": sd.bound, "failures": unknown_fail[:20],
+                         "how_to_run": "./check %s --unit %s" % (prop, sd.name)}, f, indent=1)
+            violations.append((sd.name, "bounded.case", path, True, unknown_fail[0]))
+
   # cross-check of proved contracts against CPython on sampled inputs
   sample_stats = {"units": 0, "executions": 0, "failures": 0}
   if not a.no_samples:
@@ -233,7 +284,7 @@ def main(argv=None):
 
   write_evidence(prop, tier, seed, wall, total_obl, discharged, functions, axioms, solver_time, solver_queries,
                  solver_max, backends, per_unit, samples_out, sample_stats, violations, undecided, errors,
-                 known_hits, units)
+                 known_hits, units, standin_out)
   print("property=%s tier=%s units=%d obligations=%d discharged=%d violations=%d undecided=%d errors=%d "
         "known=%d wall=%.1fs" % (prop, tier, len(units), total_obl, discharged, len(violations), len(undecided),
                                  len(errors), len(known_hits), wall))
@@ -299,7 +350,7 @@ def replay_file(prop, path):
 
 def write_evidence(prop, tier, seed, wall, total_obl, discharged, functions, axioms, solver_time, solver_queries,
                    solver_max, backends, per_unit, samples_out, sample_stats, violations, undecided, errors,
-                   known_hits, units):
+                   known_hits, units, standin_out=()):
   notdec = []
   p = os.path.join(VERIF, "not_decided.json")
   if os.path.exists(p):
@@ -317,6 +368,7 @@ def write_evidence(prop, tier, seed, wall, total_obl, discharged, functions, axi
       "solver_time_s": round(solver_time, 2), "solver_queries": solver_queries,
       "slowest_query_s": solver_max[0], "slowest_query": solver_max[1],
       "native_cross_check": sample_stats,
+      "bounded_standins": list(standin_out),
       "samples": samples_out or [{"note": "no proved obligation sampled"}],
       "undecided": ["%s/%s: %s" % x for x in undecided],
       "checker_errors": errors,
